@@ -219,6 +219,7 @@ RULES = [
     ("C17-R4", "closed standard output is handled at every write", r4),
     ("C10-R3", "exit status mapping: no failure -> 0, failures -> 1 [shared with C10]", lambda ctx: c10.r3(ctx)),
     ("C04-R4", "per-entry memo: an unreadable entry keeps nothing of the previous entry [shared with C04]", lambda ctx: __import__("c04").r4(ctx)),
+    ("C04-R8", "the byte count of Read::read bounds the data examined [shared with C04]", lambda ctx: __import__("extra2").read_amount_used(ctx)),
 ]
 
 EXPLANATION = (
